@@ -47,8 +47,11 @@ func (e *Engine) verifyFunc(fn *ssa.Function, fc *FuncContract, safety bool, dev
 	fr := &frame{ft: ft, fn: fn, vals: map[ssa.Value]Val{}, fc: fc, lets: map[string]SVal{}}
 	st := &State{heaps: map[string]string{}}
 	u := e.u
-	// not panicking at entry
-	st.heaps[panickingHeap] = "false"
+	// A function that no deferred call can reach never runs while a panic is
+	// propagating; the others are verified for both situations.
+	if !e.deferReachable(fn) {
+		st.heaps[panickingHeap] = "false"
+	}
 	bind := func(v ssa.Value, name string, nullable bool) {
 		s := u.sortOf(v.Type())
 		t := Term{ft.fresh(name, s), s}
@@ -79,6 +82,7 @@ func (e *Engine) verifyFunc(fn *ssa.Function, fc *FuncContract, safety bool, dev
 	for _, fv := range fn.FreeVars {
 		bind(fv, fv.Name(), false)
 	}
+	e.bindCapturedClosures(ft, fr, fn, st)
 	fr.entry = st.clone()
 	if fc != nil {
 		fc.used = true
@@ -127,9 +131,17 @@ func (e *Engine) verifyFunc(fn *ssa.Function, fc *FuncContract, safety bool, dev
 		}
 		collect := func(exits []exitEdge, clauses []*Clause, kind string, withUpdates bool) {
 			accs := make([]*goalAcc, len(clauses))
+			fully := make([]bool, len(clauses))
 			for i, c := range clauses {
 				accs[i] = &goalAcc{c: c}
 			}
+			defer func() {
+				for i, c := range clauses {
+					if c.E != nil && len(exits) > 0 && !fully[i] && len(accs[i].goals) > 0 {
+						e.contractError(c, fmt.Errorf("clause refers to names that exist at no exit of %s", fn.Name()))
+					}
+				}
+			}()
 			for _, x := range exits {
 				env := fr.ownEnv(x.st, fr.entry, x.block)
 				env.tolerant = true
@@ -157,10 +169,14 @@ func (e *Engine) verifyFunc(fn *ssa.Function, fc *FuncContract, safety bool, dev
 					if en.E == nil {
 						continue
 					}
+					env.toleranceUsed = false
 					goal, err := env.evalBool(en.E)
 					if err != nil {
 						e.contractError(en, err)
 						continue
+					}
+					if !env.toleranceUsed {
+						fully[i] = true
 					}
 					if os.Getenv("GOVC_SPLIT_EXITS") != "" {
 						fr.oblig(kind+"-exit", en.Props, fn.Pos(), en.name(), x.cond, goal)
@@ -277,4 +293,79 @@ func (fr *frame) libCall(instr *ssa.Call, callee *ssa.Function, name string, sig
 		return reach, true
 	}
 	return reach, false
+}
+
+// bindCapturedClosures: when a closure is verified on its own, a captured
+// variable of function type that the parent assigns exactly once (a closure
+// literal) is bound to that closure, so calls through it can be resolved.
+func (e *Engine) bindCapturedClosures(ft *FT, fr *frame, fn *ssa.Function, st *State) {
+	parent := fn.Parent()
+	if parent == nil || len(fn.FreeVars) == 0 {
+		return
+	}
+	// find the MakeClosure of fn in the parent
+	var mk *ssa.MakeClosure
+	for _, b := range parent.Blocks {
+		for _, ins := range b.Instrs {
+			if m, ok := ins.(*ssa.MakeClosure); ok && m.Fn == ssa.Value(fn) {
+				mk = m
+			}
+		}
+	}
+	if mk == nil {
+		return
+	}
+	for i, fv := range fn.FreeVars {
+		pt, ok := fv.Type().Underlying().(*types.Pointer)
+		if !ok {
+			continue
+		}
+		if _, isFunc := pt.Elem().Underlying().(*types.Signature); !isFunc {
+			continue
+		}
+		alloc, ok := mk.Bindings[i].(*ssa.Alloc)
+		if !ok {
+			continue
+		}
+		var stored *ssa.MakeClosure
+		n := 0
+		for _, ref := range *alloc.Referrers() {
+			if stI, ok := ref.(*ssa.Store); ok && stI.Addr == ssa.Value(alloc) {
+				n++
+				if m2, ok := stI.Val.(*ssa.MakeClosure); ok {
+					stored = m2
+				}
+			}
+		}
+		if n != 1 || stored == nil {
+			continue
+		}
+		target := stored.Fn.(*ssa.Function)
+		var binds []Val
+		for _, tfv := range target.FreeVars {
+			var v Val
+			found := false
+			for _, own := range fn.FreeVars {
+				if own.Name() == tfv.Name() && types.Identical(own.Type(), tfv.Type()) {
+					v = fr.vals[own]
+					found = true
+				}
+			}
+			if !found {
+				s := e.u.sortOf(tfv.Type())
+				t := Term{ft.fresh(tfv.Name(), s), s}
+				ft.assumeAllocated(st, "true", t)
+				if s == SRef {
+					ft.assume("true", not(eq(t.S, "null")))
+				}
+				v = Val{T: t}
+			}
+			binds = append(binds, v)
+		}
+		cell := fr.vals[fv].T.S
+		if e.cellClos[ft] == nil {
+			e.cellClos[ft] = map[string]*Closure{}
+		}
+		e.cellClos[ft][cell] = &Closure{Fn: target, Bindings: binds}
+	}
 }
